@@ -21,12 +21,15 @@ C15 driver (Float; floats as 16-hex-digit bit patterns).
      kind pidxLen pidx.. target disabled windowLen scale adaptCount accept reject wlen w..
      and for kind hmc:  steps diag|dense n IM.. G(n*n).. b.. lo hi
                         (joint gradient -(G q + b); the stub target is nan where q_0 < lo or q_0 > hi)
+                        nad, then per adaptor:  adaptive target start stop(-1 = inf) useRate calls accepted
+                                              | dual mu gamma kappa t0 delta start stop calls counter x xbar sbar
+                                              | mass
   nr rands..  ni ints..  nd (len v..)*nd  nn (len v..)*nn
   K, then K entries: values(flattened state) fin|bad value     (target: nearest recorded state)
 reply:
   ok opIdx | proposed(flat) | hr (fin x | inf) | lp (none | bad | fin x) | accProb accepted u(none|x)
      | stateAfter(flat) | logJointAfter | logged (bad | fin x) | scaleAfter adaptCount accept reject wlen w..
-     | consumed nr ni nd nn | epoch acceptTotal
+     | consumed nr ni nd nn | epoch acceptTotal | adaptor states (adaptive calls accepted ; dual calls counter x xbar sbar ; mass)
   none                                                 (tape dry / operator index out of range)
 -/
 open TT TT.C15 TT.Proto TTGen.C15_Tuning
@@ -105,6 +108,29 @@ def hmcRun (c : HmcCfg) (eps : Float) (q : List Float) (normals : List (List Flo
     | .ok q' hr => ((List.finRange n).map q', .fin hr, failed + 1)
     | .inf q' => ((List.finRange n).map q', .inf, failed)
 
+def optNat : P (Option Nat) := do
+  let w ← word
+  if w == "-1" then pure none else match w.toNat? with | some k => pure (some k) | none => failure
+
+def parseAdaptor : P (Adaptor Float) := do
+  let w ← word
+  match w with
+  | "adaptive" => do
+      let t ← flt; let st ← nat; let sp ← optNat; let ur ← nat; let c ← nat; let a ← nat
+      pure (.adaptive t st sp (ur != 0) c a)
+  | "dual" => do
+      let mu ← flt; let g ← flt; let k ← flt; let t0 ← flt; let d ← flt
+      let st ← nat; let sp ← optNat; let c ← nat; let cn ← nat
+      let x ← flt; let xb ← flt; let sb ← flt
+      pure (.dual mu g k t0 d st sp c cn x xb sb)
+  | "mass" => pure .massMatrix
+  | _ => failure
+
+def showAdaptor : Adaptor Float → String
+  | .adaptive _ _ _ _ c a => s!"adaptive {c} {a}"
+  | .dual _ _ _ _ _ _ _ c cn x xb sb => s!"dual {c} {cn} {floatBits x} {floatBits xb} {floatBits sb}"
+  | .massMatrix => "mass"
+
 def parseOp (i : Nat) : P (Op Float × Option HmcCfg) := do
   let k ← kind
   let np ← nat
@@ -131,7 +157,9 @@ def parseOp (i : Nat) : P (Op Float × Option HmcCfg) := do
     let b ← many n flt
     let lo ← flt
     let hi ← flt
-    pure (op, some ⟨steps, dense, n, im.toArray, G.toArray, b.toArray, lo, hi⟩)
+    let nad ← nat
+    let ads ← many nad parseAdaptor
+    pure ({ op with adaptors := ads }, some ⟨steps, dense, n, im.toArray, G.toArray, b.toArray, lo, hi⟩)
   else pure (op, none)
 
 def unflat (sizes : List Nat) (v : List Float) : Params Float := splitBy sizes v
@@ -201,7 +229,8 @@ def runStep : P String := do
         | some c => hmcRun c op.scale q normals
         | none => (q, .inf, 0),
       blockProp := fun _ own tape => (own, .inf, tape),
-      get := genGet, set := genSet, rm := genRm }
+      get := genGet, set := genSet, rm := genRm, asNew := genAsNew, daStep := genDaStep,
+      daSet := genDaSet }
   let m : Machine Float :=
     { state := state, logJoint := lj, ops := ops.toList, epoch := epoch, acceptTotal := accT }
   let tape : Tape Float := ⟨rands, ints, dirs, normals⟩
@@ -217,7 +246,8 @@ def runStep : P String := do
       s!"{showLP r.logged} | {showF r.scaleAfter} {op'.adaptCount} {op'.accept} {op'.reject} " ++
       s!"{op'.window.length} {w} | {rands.length - tape'.rands.length} " ++
       s!"{ints.length - tape'.ints.length} {dirs.length - tape'.dirs.length} " ++
-      s!"{normals.length - tape'.normals.length} | {m'.epoch} {m'.acceptTotal}")
+      s!"{normals.length - tape'.normals.length} | {m'.epoch} {m'.acceptTotal} | " ++
+      " ; ".intercalate (op'.adaptors.map showAdaptor))
 
 def handle (line : String) : String :=
   let r : Option String :=
